@@ -21,6 +21,7 @@ from gen import nontrivial, signature
 from pipeline import ImplFns, compare_value_arrays, explicit_case, materialise_case, model_layout, model_solve
 from props.simcommon import base_out
 
+CANARY = True
 RULE = ("cases = generated dyadic base specifications x {permuted declarations, consistent renaming, always-true constraint, "
         "always-true filter, filter written as constraint}; distinct = structural signature x rewriting kind; evaluations = states whose "
         "values were matched between the two specifications")
